@@ -14,7 +14,8 @@ TIERS = {
     "thorough": {"runs": 120000, "max_wall": 3000, "minimise_s": 60, "chunk": 100},
 }
 FAULT_KINDS = ["corrupted line", "truncated frame", "garbage text", "tier-A invalid frame", "malformed stream request",
-               "raising event callback", "raising publish callback"]
+               "raising event callback", "raising publish callback", "MQTT message on a topic the gateway never subscribed (forced delivery)",
+               "stalled poll thread (descheduled for 0.15-0.6 s inside a job)"]
 REAL = ["mysensors/* (all modules)", "serial.threaded", "voluptuous", "awesomeversion", "crcmod", "intelhex"]
 STUBS = ["OS threads' scheduling (kernel baton)", "clock", "serial port / socket / asyncio transports", "MQTT broker", "disk"]
 ASSUMPTIONS = ["tier-B classification of garbage lines uses the repo's own decoder/validator (consequences only)",
@@ -38,6 +39,10 @@ def gen(rng, tier, index):
         cfg["out_prefix"] = rng.choice(["", "mygateway1-in", "c/d"])
         if rng.random() < 0.2:
             cfg["pub_raise"] = sorted(rng.sample(range(30), 4))
+        if rng.random() < 0.4:
+            # the application's MQTT client has broader subscriptions of its own and hands every message to the
+            # gateway's callback: topics the gateway never subscribed (too few / too many levels) reach it too
+            cfg["mqtt_force"] = True
     n_ops = rng.randint(10, 60 if tier == "thorough" else 40)
     ops = netgen.make_ops(rng, cfg["version"], n_ops, WEIGHTS, probes_after_hostile=True, hostile_values=True, scenario=0.3)
     if rng.random() < 0.12:
@@ -50,6 +55,11 @@ def gen(rng, tier, index):
         cfg["sched"] = {"policy": "rw", "seed": rng.getrandbits(32), "p": rng.choice([0.02, 0.08, 0.2])}
         cfg["max_steps"] = 1_500_000
         ops = netgen.add_races(rng, cfg["version"], ops, rng.choice(["set", "fw"]) if cfg["version"] in ("2.0", "2.1", "2.2") else "fw")
+    if cfg["flavour"] in ("serial", "tcp", "mqtt") and rng.random() < 0.25:
+        # a stalled pump: now and then the poll thread is descheduled for 0.15-0.6 s of simulated time inside a job
+        # (loaded host, VM pause); the slow paths this opens (slow-job bookkeeping) must not raise either
+        sched = cfg.setdefault("sched", {"policy": "serial", "seed": rng.getrandbits(32)})
+        sched["stall"] = {"p": rng.choice([0.02, 0.05, 0.15]), "durations": [0.15, 0.6]}
     return {"cfg": cfg, "ops": ops}
 
 
